@@ -47,7 +47,7 @@ func genC12(t *rapid.T) c12Case {
 	n := rapid.IntRange(2, 8).Draw(t, "nops")
 	for i := 0; i < n; i++ {
 		c.Ops = append(c.Ops, c12Op{
-			Kind:  rapid.SampledFrom([]int{0, 1, 2, 2, 2, 3, 3, 4, 4, 5, 6, 7, 7, 8, 9, 9, 10, 11, 11, 12, 13, 13, 14, 15, 15, 16, 16, 17, 18, 18}).Draw(t, "kind"),
+			Kind:  rapid.SampledFrom([]int{0, 1, 2, 2, 2, 3, 3, 4, 4, 5, 6, 7, 7, 8, 9, 9, 10, 11, 11, 12, 13, 13, 14, 15, 15, 16, 16, 17, 18, 18, 19, 19, 20}).Draw(t, "kind"),
 			Topic: rapid.IntRange(0, 1).Draw(t, "topic"),
 			Who:   rapid.IntRange(0, 3).Draw(t, "who"),
 			At:    rapid.IntRange(0, 40).Draw(t, "at"),
@@ -66,6 +66,8 @@ type c12Info struct {
 	Foreign           int
 	HeldCallbacks     int
 	LateDuringSession int
+	StalledHandlers   int
+	DupDuringSetup    int
 	L40Between        int
 	LiveForeign       int // copies of live session frames under a non-participant's source, delivered while the session runs
 	StartAllFirst     int // silent-mode repeats where the generator switch of known finding L20 was applied
@@ -100,6 +102,10 @@ func runC12(c c12Case) *vh.Outcome {
 		instance := map[uint16]int{}
 		var gateNode uint16 // node whose next signer instance parks in its first SetShareData
 		var gate chan struct{}
+		var onMsgGateNode uint16 // node whose next signer instance parks in its first OnMsg (a slow handler)
+		var onMsgGate chan struct{}
+		tolerateBlocked := false
+		var holdBack func(f *sim.Frame) bool // deliveries that the driver must put aside for now (returns true = put aside)
 		// hookNode/hookPoint/hookFire: the next protocol instance of hookNode calls hookFire when it reaches hookPoint
 		// ("factory" | "init" | "setshare" | "run") - a cancellation in the middle of the orchestrator's set-up
 		avoidL40 := vh.KnownOpen(sigL40) && !c.NoSwitch && os.Getenv("VERIF_NO_SWITCH") == ""
@@ -143,6 +149,10 @@ func runC12(c c12Case) *vh.Outcome {
 						}
 					}
 				}
+			}
+			if kind == "sign" && onMsgGate != nil && node == onMsgGateNode {
+				r.OnMsgGate = onMsgGate
+				onMsgGateNode = 0
 			}
 			if kind == "sign" && gate != nil && node == gateNode {
 				r.Gate = gate
@@ -193,10 +203,11 @@ func runC12(c c12Case) *vh.Outcome {
 		runAttempt := func(calls []*sim.Call, startAllFirst bool, hook func(d *sim.Driver)) bool {
 			attemptStart = len(net.LogCopy())
 			attemptNo++
-			d := &sim.Driver{Net: net, Sched: &c.Sched, Pos: pos, DrainAfterDone: false, HardStop: c12Timeout + 5*time.Second, StartAllFirst: startAllFirst, Calls: calls}
+			d := &sim.Driver{Net: net, Sched: &c.Sched, Pos: pos, DrainAfterDone: false, HardStop: c12Timeout + 5*time.Second, StartAllFirst: startAllFirst, Calls: calls, TolerateBlocked: tolerateBlocked}
 			if hook != nil {
 				d.AfterStep = func() { hook(d) }
 			}
+			d.BeforeDeliver = func(f *sim.Frame) bool { return holdBack == nil || !holdBack(f) }
 			// note API returns on the tape so that late hand-offs can be told from in-session ones
 			marked := map[*sim.Call]bool{}
 			prev := d.AfterStep
@@ -456,6 +467,112 @@ func runC12(c c12Case) *vh.Outcome {
 					return
 				}
 				usedTopics[tA], usedTopics[tB] = "ok", "ok"
+			case 19: // a sign on t0 in which one node's handler stalls (its signer parks in OnMsg); meanwhile a sign on t1 by everybody
+				// must run to completion ("concurrent sessions on different topics do not influence each other"); then the
+				// handler is released and the first sign completes as well
+				info.Overlaps++
+				tA, tB := "t0", "t1"
+				usedA, usedB := usedTopics[tA] != "", usedTopics[tB] != ""
+				saf := false
+				if c.Silent && (usedA || usedB) && avoidL20 {
+					saf = true
+					info.StartAllFirst++
+				}
+				victim := parts[op.Who%n]
+				onMsgGate = make(chan struct{})
+				onMsgGateNode = victim
+				tolerateBlocked = true
+				ctxs, cns := ctxFor(parts)
+				callsA := mkCalls("sign", tA, parts, ctxs)
+				var callsB []*sim.Call
+				stage := 0
+				// While the handler is parked it holds the session's own broadcast lock, so further protocol frames of THAT session
+				// for the victim would wait for a mutex - legitimately, but a goroutine waiting for a mutex wedges the virtual
+				// clock. The driver therefore puts those frames aside and hands them back, in order, when the handler is released.
+				logStart := len(net.LogCopy())
+				tapeStart := len(tape.Snapshot())
+				topicsA := map[string]bool{}
+				var aside []*sim.Frame
+				holdBack = func(f *sim.Frame) bool {
+					if os.Getenv("VERIF_DEBUG") != "" && f.MsgType == 2 {
+						fmt.Fprintf(os.Stderr, "  deliver stage=%d %d->%d topicA=%v len=%d first=%x\n", stage, f.From, f.To, topicsA[string(f.Topic)], len(f.Data), f.Data[:1])
+					}
+					if stage == 1 && f.To == victim && f.MsgType == 2 && topicsA[string(f.Topic)] {
+						aside = append(aside, f)
+						return true
+					}
+					return false
+				}
+				release := func() {
+					net.PushFront(aside)
+					aside = nil
+					close(onMsgGate)
+				}
+				hook := func(d *sim.Driver) {
+					switch stage {
+					case 0:
+						for _, e := range tape.Snapshot()[tapeStart:] {
+							if e.Kind == "onmsg-parked" && e.Node == victim && stage == 0 {
+								stage = 1
+								info.StalledHandlers++
+								for _, f := range net.LogCopy()[logStart:] {
+									if f.MsgType == 2 {
+										topicsA[string(f.Topic)] = true
+									}
+								}
+								callsB = mkCalls("sign", tB, parts, ctxs)
+								for _, cb := range callsB {
+									d.Calls = append(d.Calls, cb)
+									d.StartCall(cb)
+								}
+							}
+						}
+					case 1:
+						all := true
+						for _, cb := range callsB {
+							if !cb.IsDone() {
+								all = false
+							}
+						}
+						if all {
+							stage = 2
+							release()
+						}
+					}
+				}
+				info.Attempts = append(info.Attempts, fmt.Sprintf("sign on t0 with a stalled handler at node %d, sign on t1 meanwhile", victim))
+				ok := runAttempt(callsA, saf, hook)
+				if stage < 2 {
+					release()
+				}
+				holdBack = nil
+				onMsgGate = nil
+				onMsgGateNode = 0
+				tolerateBlocked = false
+				for _, cn := range cns {
+					cn()
+				}
+				if !ok {
+					return
+				}
+				if stage == 0 {
+					// the victim's signer never received anything (cannot happen with everybody taking part)
+					if !expectAllOK("sign", callsA, tA, usedA) {
+						return
+					}
+					usedTopics[tA] = "ok"
+					continue
+				}
+				for _, cb := range callsB {
+					if cb.Err != nil || !cb.IsDone() {
+						fail = vh.Failf("C12/stalled-handler-of-other-topic", "Sign on %s by all (%s) failed: %v - while it ran, the handler of node %d for the session on %s was stalled inside the backend's OnMsg; a session on another topic must not be affected (silent=%v)", tB, cb.Name, cb.Err, victim, tA, c.Silent)
+						return
+					}
+				}
+				if !expectAllOK("sign-with-stalled-handler", callsA, tA, usedA) {
+					return
+				}
+				usedTopics[tA], usedTopics[tB] = "ok", "ok"
 			case 6: // duplicate sign on the same topic while the first one runs
 				info.Overlaps++
 				_, used := usedTopics[topic]
@@ -521,11 +638,12 @@ func runC12(c c12Case) *vh.Outcome {
 				ctxs, cns := ctxFor(parts)
 				calls := mkCalls("sign", topic, parts, ctxs)
 				stage := 0
+				tapeStart := len(tape.Snapshot())
 				hook := func(d *sim.Driver) {
 					switch stage {
 					case 0:
-						for _, e := range tape.Snapshot() {
-							if e.Kind == "setshare-parked" && e.Node == victim {
+						for _, e := range tape.Snapshot()[tapeStart:] {
+							if e.Kind == "setshare-parked" && e.Node == victim && stage == 0 {
 								stage = 1
 								cns[victim]() // Sign of the victim returns while its signer is still being prepared
 							}
@@ -602,6 +720,52 @@ func runC12(c c12Case) *vh.Outcome {
 					}
 				}
 				if !expectAllOK("keygen-with-duplicates", calls, key, used) {
+					return
+				}
+				usedTopics[key] = "ok"
+			case 20: // key generation by all; on one node a second KeyGen is called while the first is in the middle of its set-up
+				// (inside the protocol-instance factory, i.e. after the "already running" test and before the handlers are
+				// registered): it must be refused with an error at once, and the first one completes
+				key := "DKG"
+				_, used := usedTopics[key]
+				saf := false
+				if c.Silent && used && avoidL20 {
+					saf = true
+					info.StartAllFirst++
+				}
+				ctxs, cns := ctxFor(parts)
+				calls := mkCalls("keygen", key, parts, ctxs)
+				victim := parts[op.Who%n]
+				dup := cl.KeyGenCall(ctxs[victim], victim, n, 2)
+				dup.Name = fmt.Sprintf("duplicate-keygen-during-setup@%d", victim)
+				hookNode = victim
+				hookPoint = "factory"
+				hookFire = func() {
+					// the first call carries on as soon as the duplicate has returned (refused: no virtual time passes), or after a
+					// virtual millisecond if the duplicate was admitted and is now running
+					select {
+					case <-dup.Go():
+					case <-time.After(time.Millisecond):
+					}
+				}
+				info.Attempts = append(info.Attempts, fmt.Sprintf("keygen with a second KeyGen on node %d during the set-up of the first", victim))
+				info.Overlaps++
+				ok := runAttempt(calls, saf, nil)
+				hookFire = nil
+				for _, cn := range cns {
+					cn()
+				}
+				if !ok {
+					return
+				}
+				if dup.Started {
+					info.DupDuringSetup++
+					if !dup.IsDone() || dup.Panic != "" || dup.Err == nil {
+						fail = vh.Failf("C12/duplicate-not-refused/keygen-during-setup", "%s: a second KeyGen called while the first was setting up its session (after its \"already running\" test, before its handlers were registered) was not refused with an error (done=%v err=%v panic=%q)", dup.Name, dup.IsDone(), dup.Err, dup.Panic)
+						return
+					}
+				}
+				if !expectAllOK("keygen-with-duplicate-during-setup", calls, key, used) {
 					return
 				}
 				usedTopics[key] = "ok"
@@ -905,6 +1069,12 @@ func runC12(c c12Case) *vh.Outcome {
 	}
 	if info.LateDelivered > 0 {
 		o.Classes = append(o.Classes, "late-frames-replayed")
+	}
+	if info.DupDuringSetup > 0 {
+		o.Classes = append(o.Classes, "duplicate-keygen-during-setup")
+	}
+	if info.StalledHandlers > 0 {
+		o.Classes = append(o.Classes, "stalled-handler-while-other-topic-runs")
 	}
 	if info.LateDuringSession > 0 {
 		o.Classes = append(o.Classes, "payloads-of-failed-attempt-arrive-during-retry")
